@@ -8,14 +8,14 @@ CONSTANTS
  MaxFaults = 4
  MaxSeeks = 1
  Conc = 8
- FixLeak = FALSE
+ FixLeak = TRUE
  PrioAsc = TRUE
  Rs = {1, 2}
  Prios = {0}
- Meths = {"GET", "HEAD", "PUT"}
+ Meths = {"GET", "HEAD", "PUT", "DELETE"}
  Waive <- WaiveNone
  Confs <- EqConfs
 INIT MCInit
 NEXT MCNext
-INVARIANTS Ok RetryBound TypeOK
+INVARIANTS Ok RetryBound TypeOK NoThrottleBlock
 CHECK_DEADLOCK FALSE
